@@ -228,7 +228,7 @@ def run(ck):
 
             paths = [p for p in paths_of(prog, thf, max_paths=100, sticky=True, stubs={"NeuralStateBase.compute_batch_gradients": stub_grad_lists}) if p.outcome == "return"]
             ck.check(bool(paths), "C06.R3", inst + ":runs", fsite, "fit never returns")
-            for p in paths[:1]:
+            for p in paths:
                 it = p.interp
                 s = p.value
                 nets = state_networks(it, s)
